@@ -160,8 +160,14 @@ func WriteMultipartFormFile(w *multipart.Writer, fieldName, fileName string, r i
 	return err
 }
 
+// quoteEscaper escapes the characters that would end a quoted-string parameter value early
+// (the same escaping mime/multipart applies in CreateFormFile / CreateFormField).
+var quoteEscaper = strings.NewReplacer("\\", "\\\\", `"`, "\\\"")
+
 func CreateMultipartHeader(param, fileName, contentType string) textproto.MIMEHeader {
 	hdr := make(textproto.MIMEHeader)
+	param = quoteEscaper.Replace(param)
+	fileName = quoteEscaper.Replace(fileName)
 
 	var contentDispositionValue string
 	if len(strings.TrimSpace(fileName)) == 0 {
